@@ -21,7 +21,6 @@ from typing_extensions import Self
 
 from xdsl.utils.exceptions import ArgSpecParseError
 from xdsl.utils.lexer import Input, Span, Token
-from xdsl.utils.mlir_lexer import StringLiteral
 
 ParameterType = str | int | bool | float
 """
@@ -30,6 +29,28 @@ The only types that can be used as `ArgSpec` parameters.
 ParameterListType = tuple[ParameterType, ...]
 """
 The `ArgSpec` holds a dictionary from strings to lists of parameters.
+"""
+
+_STRING_ESCAPES: dict[str, str] = {
+    "\\": "\\\\",
+    '"': '\\"',
+    "\n": "\\n",
+    "\f": "\\f",
+    "\v": "\\v",
+    "\r": "\\r",
+}
+"""
+The characters that cannot appear verbatim in a quoted string parameter, and the
+escape sequences they are printed as.
+"""
+
+_STRING_UNESCAPES: dict[str, str] = {
+    **{escape[1]: char for char, escape in _STRING_ESCAPES.items()},
+    "t": "\t",
+}
+"""
+The escape sequences accepted by the lexer in a quoted string parameter (keyed by the
+character following the backslash), and the characters they stand for.
 """
 
 
@@ -63,7 +84,8 @@ class ArgSpec:
             case bool():
                 return str(arg).lower()
             case str():
-                return f'"{arg}"'
+                escaped = "".join(_STRING_ESCAPES.get(c, c) for c in arg)
+                return f'"{escaped}"'
             case int():
                 return str(arg)
             case float():
@@ -537,10 +559,13 @@ def _parse_parameter_value_element(lexer: PipelineLexer) -> ParameterType:
     # strings
     match lexer.lex():
         case Token(kind=SpecTokenKind.STRING_LIT, span=span):
-            # string literals are converted to unescaped strings
-            str_token = StringLiteral.from_span(span)
-            assert str_token is not None
-            return str_token.string_contents
+            # string literals are converted to unescaped strings, the lexer only
+            # accepts the escape sequences in `_STRING_UNESCAPES`
+            return re.sub(
+                r"\\(.)",
+                lambda match: _STRING_UNESCAPES[match.group(1)],
+                span.text[1:-1],
+            )
         case Token(kind=SpecTokenKind.NUMBER, span=span):
             # NUMBER is both float and int
             # if the token contains a `.` it's a float
